@@ -231,9 +231,6 @@ Definition check_features (f : featsv) : outcome unit :=
 (** ** the constructor *)
 Record design := { d_features : featsv; d_visit_type : option vtype; d_params : dict }.
 
-Definition le0 (k : string) (ps : dict) : option bool :=
-  match lookup k ps with Some v => cmp0 Le0 v | None => None end.
-
 Definition frame_checks (ps : dict) : outcome unit :=
   match lookup "df_visits" ps with
   | Some (VFrame f) =>
@@ -243,16 +240,26 @@ Definition frame_checks (ps : dict) : outcome unit :=
   | _ => Crash
   end.
 
-(** [if mean <= 0 and std <= 0: raise] *)
+(** [if mean <= 0 and std <= 0: raise]: a short-circuit conjunction of sign tests on stored parameters *)
+Fixpoint all_cmp (cs : list (string * cmpop)) (ps : dict) : option bool :=
+  match cs with
+  | [] => Some true
+  | (k, op) :: r => match lookup k ps with
+                    | None => None
+                    | Some v => match cmp0 op v with
+                                | None => None
+                                | Some false => Some false
+                                | Some true => all_cmp r ps
+                                end
+                    end
+  end.
+Definition random_final : list (string * cmpop) :=
+  [ ("distance_visit_mean", Le0); ("distance_visit_std", Le0) ]%string.
 Definition random_checks (ps : dict) : outcome unit :=
-  match le0 "distance_visit_mean" ps with
+  match all_cmp random_final ps with
   | None => Crash
+  | Some true => Refuse
   | Some false => Ok tt
-  | Some true => match le0 "distance_visit_std" ps with
-                 | None => Crash
-                 | Some true => Refuse
-                 | Some false => Ok tt
-                 end
   end.
 
 Definition validate (vt : vtype) (feats : featsv) (ps : dict) : outcome unit :=
@@ -315,6 +322,7 @@ Definition n_features (f : featsv) : nat := match f with FsList l => List.length
 Fixpoint nodupb (l : list string) : bool :=
   match l with [] => true | x :: r => negb (memb String.eqb x r) && nodupb r end.
 
+Definition is_intid (i : idv) : bool := match i with IdInt _ => true | _ => false end.
 Definition frame_ids (ps : dict) : list idv :=
   match lookup "df_visits" ps with Some (VFrame f) => map fst (rows f) | _ => [] end.
 
@@ -330,7 +338,7 @@ Section Run.
         else if (source_dimension m =? 0)%nat then Crash           (* torch.stack([]) *)
         else if negb (n_features feats =? dimension m)%nat then Crash   (* space-shift columns vs mixing matrix *)
         (* _generate_dataset *)
-        else if existsb (fun i => match i with IdInt _ => true | _ => false end) (frame_ids ps) then Crash
+        else if existsb is_intid (frame_ids ps) then Crash
                                                                    (* IndividualParameters needs string IDs *)
         else if (n <=? 0)%Z then Crash                             (* empty table: nothing to concatenate *)
         else if (n =? 1)%Z then Crash                              (* std of one source draw is undefined -> NaN -> beta.rvs *)
